@@ -163,6 +163,10 @@ Definition u_model (m : model) (p : eprops) (chardim : list (uuid * option Q)) (
 
 (* ---- correspondence (rational kinds); the R-valued kinds are certified in the case files ---- *)
 Definition utol : Q := (1 # 200) + (1 # 10000).
+(* partitions: the code feeds areas rounded to 0.01 m2, U-values of the neighbouring surfaces rounded to 0.01
+   and a net height rounded to 0.001 m into the formula; the model uses the reported (rounded) U-values but
+   exact areas, which moves the value by up to about 1e-3 before the final rounding *)
+Definition utol_partition : Q := (1 # 200) + (1 # 1000).
 
 Record c06_case := mkC06 {
   c06_model : model; c06_props : eprops;
@@ -180,7 +184,7 @@ Definition rat_agree (c : c06_case) (wu : wall * option Q) : bool :=
   match u_model (c06_model c) (c06_props c) (c06_chardim c) (c06_vent c) (fst wu), snd wu with
   | UNone, None => true
   | UNone, Some _ => false
-  | URat u, Some i => qleb (Qabs (i - u)) utol
+  | URat u, Some i => qleb (Qabs (i - u)) (match w_bounds (fst wu) with INTERIOR => utol_partition | _ => utol end)
   | URat _, None => false
   | USlab _ _ _ _ _, None | UBWall _ _ _ _, None => false
   | _, _ => true      (* transcendental kinds: certified separately; undefined: not compared *)
